@@ -453,7 +453,10 @@ func runConc(rp E2EReplay) (*e2eOut, error) {
 	}
 	res, err := srv.Querier.Query(ctx, &api.QueryRequest{Query: "SELECT FROM {" + tags + "} LIMIT 10000", Limit: 10000})
 	if err != nil && err != io.EOF {
-		return nil, fmt.Errorf("query: %v", err)
+		if out.viol == nil {
+			out.viol = &Violation{Class: "read-failed", Detail: fmt.Sprintf("partition %s: %v", tags, err)}
+		}
+		res = &api.QueryResult{}
 	}
 	// observation: (writer, record) in journal order; oracle: each writer's events exactly once, in its order
 	var obs []string
